@@ -675,10 +675,12 @@ def check(pid, plan, tier, only=None, seed=0, evidence=True):
     # prerequisites (assume-guarantee chain, DESIGN §3.2)
     prereq_fail = None
     for pre in plan.get("prereq", ()):
-        ok, why = pre(workdir)
+        ok, why = pre(workdir, tier)
         if not ok:
             prereq_fail = why
             break
+        if why:
+            notes.append(why)
     harnesses = {}
     build_err = None
     if prereq_fail is None:
@@ -751,14 +753,14 @@ def check(pid, plan, tier, only=None, seed=0, evidence=True):
         exit_code = 2
     evdir = EVID if (evidence and only is None and tier in ("quick", "thorough")) else workdir  # partial/debug runs never touch evidence/
     write_evidence(pid, plan, tier, seed, results, violations, inconclusive, known_hits, time.time() - t0,
-                   prereq_fail or build_err, evdir)
+                   prereq_fail or build_err, evdir, notes)
     log("[done] %s tier=%s: %d instances, %d discharged, %d violations, %d known, %d inconclusive, %.0fs -> exit %d" % (
         pid, tier, len(results), sum(1 for r in results if r.status == "pass"), len(violations), len(known_hits),
         len(inconclusive), time.time() - t0, exit_code))
     return exit_code
 
 
-def write_evidence(pid, plan, tier, seed, results, violations, inconclusive, known_hits, wall, fatal, evdir=EVID):
+def write_evidence(pid, plan, tier, seed, results, violations, inconclusive, known_hits, wall, fatal, evdir=EVID, notes=()):
     discharged = [r for r in results if r.status == "pass"]
     nontrivial = [r for r in discharged if r.inst.expect == "pass" and r.covers and all(r.covers.values())]
     samples = []
@@ -801,7 +803,7 @@ def write_evidence(pid, plan, tier, seed, results, violations, inconclusive, kno
             "engine": "Kani 0.68.0 (kani-compiler) -> CBMC 6.11.0 --sat-solver cadical",
             "repo_head": git_head(REPO),
         },
-        "assumptions": list(plan.get("assumptions", [])) + ["stub: " + s for s in stubs],
+        "assumptions": list(plan.get("assumptions", [])) + ["stub: " + s for s in stubs] + ["prerequisite: " + n for n in notes],
         "wall_s": round(wall, 1),
         "violations": len(violations),
     }
